@@ -139,6 +139,9 @@ var c09Stmts = []string{
 	"boolean bb = !flag && (n & 1) == 0 || n <= ~n;",
 	"@SuppressWarnings(\"x\") int annotatedLocal = 0;",
 	"String t = \"é\" + 'ü' + \"\\u00e9\";",
+	// identifiers made of `$` and `_` only, used as bare expressions
+	"int $ = 1;\nconsume($);\n$++;",
+	"int __ = 2, $_ = 3;\n__ = __ + $_;\nconsume(__);",
 	"// TODO statement level",
 	"/* TODO(bob): block */",
 	";",
